@@ -75,7 +75,11 @@ def campaign(c):
             if lits:
                 s2 = '\n'.join(l for l in out).encode()
                 # keep the lets too (they are harmless) so that only the uses change
-                s2 = '\n'.join(re.sub(r'(?<![\w.:])(%s)(?![\w(.])' % '|'.join(lits), lambda m: lits[m.group(1)], l) if not LITLET.match(l) else l for l in lines).encode()
+                def subst(l):
+                    # only outside string literals (a name may occur as text inside one)
+                    parts = re.split(r'("[^"]*")', l)
+                    return ''.join(p if p.startswith('"') else re.sub(r'(?<![\w.:])(%s)(?![\w(.])' % '|'.join(lits), lambda m: lits[m.group(1)], p) for p in parts)
+                s2 = '\n'.join(subst(l) if not LITLET.match(l) else l for l in lines).encode()
                 res = core.run_cli(s2)
                 if core.classify_cli(res)[0] != 'success' or frames(res) != base:
                     c.violation('sem:inline', 'inlining let-bound literals changed the output', dict(src=s2.decode()[:3000], orig=text[:3000]))
